@@ -58,6 +58,10 @@ def main(tier: str) -> int:
     t0 = time.time()
     rc = 0
     for name in built_checks():
+        w = getattr(importlib.import_module(f"simflox.checks.{name}"), "warmup", None)
+        if w:
+            w()  # e.g. the pristine-process zygote must be forked before flox is first called
+    for name in built_checks():
         a = digests(name, 12345, n, 1)
         b = digests(name, 12345, n, 16)
         bad = [i for i in a if a[i] != b.get(i)]
@@ -87,5 +91,8 @@ def digests_main(name: str, tier: str) -> int:
 
     warnings.filterwarnings("ignore")
     n = 24 if tier == "quick" else 200
+    w = getattr(importlib.import_module(f"simflox.checks.{name}"), "warmup", None)
+    if w:
+        w()
     print(json.dumps(digests(name, 12345, n, 4)))
     return 0
